@@ -121,6 +121,8 @@ func mkBuild(t testing.TB, spec mkSpec) (*mkMesh, error) {
 			}
 		}
 		cfg.Connections.IdleThreshold = 2 * time.Second
+		cfg.Connections.Reconnect.InitialDelay = 200 * time.Millisecond
+		cfg.Connections.Reconnect.MaxDelay = 1 * time.Second
 		cfg.UDP.Enabled = false
 		cfg.ICMP.Enabled = false
 		if spec.Cfg != nil {
